@@ -5,7 +5,7 @@ import common as C
 import gen
 from props import util
 
-THEOREMS = ['C11_every_class_loadable', 'C11_linked_asset_refuted', 'C11_timegrid_keys']
+THEOREMS = ['C11_every_class_loadable', 'C11_linked_asset_refuted', 'C11_timegrid_keys', 'C11_value_round_trip', 'C11_save_load_save', 'C11_load_is_stable']
 CFG = {'p_coarse': 0.2, 'p_periodic': 0.2, 'T': (3, 8), 'n_assets': (2, 5), 'nodes': (1, 3), 'p_window': 0.5, 'p_market': 0.8, 'p_wacc': 0.5,
        'p_cap_dict': 0.5, 'p_inflow': 0.4, 'p_no_simult': 0.2, 'p_max_store': 0.2, 'p_full_exec': 0.3, 'p_window_scaled': 0.6, 'p_blocks': 0.1,
        'freqs': ['h', 'h', 'd', '30min', '2h'], 'units': ['h', 'd', 'min'], 'tzs': [None, 'CET', 'US/Eastern'],
@@ -62,8 +62,8 @@ def run(ctx):
     for k, name in enumerate(SPECIAL):
         specs.append({'id': 'c11s_%s' % name, 'seed': 'c11s_%s' % name, 'opts': {'special': name}, 'prices': {}, 'assets': [],
                       'grid': {'start': '2021-01-04 00:00', 'end': '2021-01-04 08:00', 'freq': 'h', 'unit': 'h', 'tz': None, 'T': 8}})
-    specs = ctx.specs(specs)
-    res = C.run_impl('json', specs)
+    specs = [sp for sp in ctx.specs(specs) if not sp.get('codec')]
+    res = C.run_impl('json', specs) if specs else []
     for sp, o in zip(specs, res):
         ctx.count('status:' + str(o.get('status')))
         if o.get('status') != 'ok':
@@ -97,3 +97,6 @@ def run(ctx):
                                   trigger=trig)
         ctx.sample({'spec': sp})
     ctx.cov['correspondence']['cases'] = len(specs)
+    # the value layer of the serialiser against Codec.v
+    from props import codec
+    codec.run(ctx, 160 if ctx.tier == 'quick' else 1200)
